@@ -556,5 +556,8 @@ pub fn run(p: &Params) -> Run {
     }
     // the end-to-end stream: the same property seen from raw texts and raw file bytes (`e2e.rs`, Lean `Pipeline.runText`)
     crate::e2e::stream(&mut run, &mut Rng::new(p.seed ^ 0xe2e17), p.n(250, 3000), "print");
+    // the RFC 8259 grammar the JSON theorems are stated against (Spec/JsonGrammar.lean), validated on its own:
+    // generated JSON texts judged by serde_json and by the Lean parser that decides that grammar
+    crate::jsontext::stream(&mut run, &mut Rng::new(p.seed ^ 0x8259), p.n(1500, 40_000));
     run
 }
